@@ -613,6 +613,10 @@ def split_cases(reqs, reps):
         if q.startswith('init '):
             cur = (q.split()[1], [], idx)
             cases.append(cur)
+        elif q.startswith('sinit '):
+            # a scheduled case (threads): kind `sched:<kind>`; judged by tools/schedmode.py
+            cur = ('sched:' + q.split()[1], [], idx)
+            cases.append(cur)
         if cur is not None:
             cur[1].append((q, p))
     return cases
